@@ -312,30 +312,39 @@ class RecvWorld(World):
         for mi, spec in enumerate(self.sc.get("mws", [])):
             methods: Dict[str, Any] = {}
             for hook, mode in spec.get("hooks", {}).items():
-                methods[hook] = self._mk_hook(hook, evname[hook], mode, mi, spec.get("fail", {}).get(hook, ()))
+                methods[hook] = self._mk_hook(
+                    hook, evname[hook], mode, mi, spec.get("fail", {}).get(hook, ()), bool(spec.get("replace")),
+                )
             cls = type(f"RecMW{mi}", (TaskiqMiddleware,), methods)
             broker.add_middlewares(cls())
 
-    def _mk_hook(self, hook: str, ev: str, mode: str, mi: int, fail: Any) -> Any:
+    def _mk_hook(self, hook: str, ev: str, mode: str, mi: int, fail: Any, replace: bool = False) -> Any:
         world = self
+
+        def marks(message: Any) -> Any:
+            return tuple(sorted(k for k in message.labels if k.startswith("mw")))
 
         def done(message: Any) -> Any:
             if fail == "all" or world.idx_of(message.task_id) in fail:
                 raise RuntimeError(f"hook {hook} of middleware {mi} fails")
-            return message if hook == "pre_execute" else None
+            if hook != "pre_execute":
+                return None
+            if replace:
+                return message.model_copy(update={"labels": {**message.labels, f"mw{mi}": mi}})
+            return message
 
         if mode == "sync":
             def h(self, message, *rest):  # noqa: ANN001
-                world.emit(ev, world.idx_of(message.task_id), mi)
+                world.emit(ev, world.idx_of(message.task_id), mi, marks(message))
                 return done(message)
         elif mode == "async":
             async def h(self, message, *rest):  # noqa: ANN001
-                world.emit(ev, world.idx_of(message.task_id), mi)
+                world.emit(ev, world.idx_of(message.task_id), mi, marks(message))
                 return done(message)
         else:
             async def h(self, message, *rest):  # noqa: ANN001
                 i = world.idx_of(message.task_id)
-                world.emit(ev, i, mi)
+                world.emit(ev, i, mi, marks(message))
                 await world.gate(("hook", i, mi, hook))
                 world.emit(ev + "_E", i, mi)
                 return done(message)
